@@ -1,7 +1,7 @@
 (* Proofs/GradualProofs.v — the gradual machine refines a plain iterator over the one-shot
    values, for every object list and every operation sequence. *)
 From Coq Require Import ZArith List Bool Lia.
-From V Require Import F64 Gradual.
+From V Require Import Tables F64 Gradual.
 Import ListNotations.
 Open Scope Z_scope.
 
@@ -797,3 +797,8 @@ Example taiko_first_not_hit_ok :
 Proof. vm_compute. reflexivity. Qed.
 Example taiko_short_map_ok : taiko_run [true; true] [GLenOp; GNext; GNth 5] = taiko_spec [true; true] [GLenOp; GNext; GNth 5].
 Proof. vm_compute. reflexivity. Qed.
+
+(* the refinement theorems take one initial skill state s0 for the gradual and the one-shot
+   calculation: the constructors build it from the same values (facts re-read from the source) *)
+Theorem tables_setup_facts : forallb snd Tables.setup_facts = true /\ (4 <= length Tables.setup_facts)%nat.
+Proof. vm_compute. split; [reflexivity|repeat constructor]. Qed.
